@@ -340,7 +340,7 @@ def verify_pairs(ctx, pairs, rep_base, what):
 def run_c18(ctx):
     ctx.rule = ("real server binary with num_workers in {1,2,4,8,16}, 1..64 concurrent closed-loop reference clients, mixed "
                 "protocols, seeded rounds; every reply verified by the Coq spec verifier, exactly one reply per request, "
-                "all worker threads alive, no panic output; non-trivial = distinct round with >= 2 workers and >= 2 clients")
+                "all worker threads alive, no panic output; clients with 3-4 requests in flight from one socket; non-trivial = distinct round with >= 2 workers and >= 2 clients")
     vlib.prepare(ctx, need_bins=True)
     r = ctx.rng
     grid = [(1, 4), (2, 16), (4, 32), (8, 64), (16, 64)] if not ctx.thorough else [(w, c) for w in (1, 2, 4, 8, 16) for c in (1, 8, 32, 64)]
@@ -432,7 +432,8 @@ def run_c15(ctx):
     ctx.rule = ("real server binary over the documented option space (num_workers 1..16, health port absent/present, batch_size "
                 "{1,2,63,64}, fault {0,1,50}, status_interval {1,10,600}, client_stats off/on with a directory; file and ENV; "
                 "example.cfg with ports remapped): live worker threads, UDP replies, health replies under sequential and burst "
-                "connects, no panic output; non-trivial = distinct configuration with >= 2 workers or a health port")
+                "connects, no panic output; a health connection while accept() fails with EMFILE (descriptor limit lowered): time "
+                "service continues on every worker; non-trivial = distinct configuration with >= 2 workers or a health port")
     vlib.prepare(ctx, need_bins=True)
     r = ctx.rng
     workdir = tempfile.mkdtemp(prefix="c15", dir=vlib.BUILD)
@@ -594,7 +595,7 @@ def health_accept_fault(ctx, workdir):
 
 def run_c19(ctx):
     ctx.rule = ("real server binary: SIGINT / SIGTERM x num_workers {1,4,16} x client_stats off/on x delays swept over 0..300 ms "
-                "relative to the start of load x {idle, closed-loop load, open-loop flood}; exit status, time to exit, panic "
+                "relative to the start of load x {idle, closed-loop load, open-loop flood, junk-only traffic, silent / half-open TCP peer on the health port}; exit status, time to exit, panic "
                 "output, validity of the last replies; non-trivial = distinct (signal, workers, stats, mode, delay) case under load")
     vlib.prepare(ctx, need_bins=True)
     r = ctx.rng
